@@ -176,6 +176,8 @@ Definition nolisten (st : sstate) : Prop :=
 Definition ui_src (oa : option Z) (p : pdu) : Prop := exists d data a, p = PUI d a data /\ oa = Some a.
 Definition ui_dst (oa : option Z) (p : pdu) : Prop := exists d sa data, p = PUI d sa data /\ oa = Some d.
 
+Definition is_ui (p : pdu) : bool := match p with PUI _ _ _ => true | _ => false end.
+
 Record wf (c : ctl) : Prop := mkWf {
   wf_len : length (c_sap c) = 64%nat;
   wf_sap0 : exists sl, sap_get c 0 = Sap [] sl;
@@ -207,13 +209,18 @@ Record wf (c : ctl) : Prop := mkWf {
   (* datagram sockets: every PDU waiting to be sent is a UI PDU carrying the socket's own address as source,
      every PDU waiting to be received is a UI PDU addressed to the socket's own address *)
   wf_ldl_sq : forall i s p, get_sock c i = Some s -> s_type s = TLdl -> In p (s_sendq s) -> ui_src (s_addr s) p;
-  wf_ldl_rq : forall i s p, get_sock c i = Some s -> s_type s = TLdl -> In p (s_recvq s) -> ui_dst (s_addr s) p
+  wf_ldl_rq : forall i s p, get_sock c i = Some s -> s_type s = TLdl -> In p (s_recvq s) -> ui_dst (s_addr s) p;
+  (* a UI PDU waits for transmission only in the send queue of a datagram socket or a raw access point *)
+  wf_dlc_sq : forall i s p, get_sock c i = Some s -> s_type s = TDlc -> In p (s_sendq s) -> is_ui p = false;
+  wf_sendl_ui : forall a l sl p, sap_get c a = Sap l sl -> In p sl -> is_ui p = false;
+  wf_dmpdu_ui : forall p, In p (sd_dmpdu c) -> is_ui p = false
 }.
 
-(* wf only looks at the SAP table, the name table and the sockets *)
-Lemma wf_ext c c' : c_sap c' = c_sap c -> c_snl c' = c_snl c -> c_socks c' = c_socks c -> wf c -> wf c'.
+(* wf only looks at the SAP table, the name table, the sockets and the DM queue of service discovery *)
+Lemma wf_ext c c' : c_sap c' = c_sap c -> c_snl c' = c_snl c -> c_socks c' = c_socks c ->
+  (forall p, In p (sd_dmpdu c') -> is_ui p = false) -> wf c -> wf c'.
 Proof.
-  intros E1 E2 E3 W.
+  intros E1 E2 E3 E4 W.
   assert (G : forall a, sap_get c' a = sap_get c a) by (intro; unfold sap_get; rewrite E1; reflexivity).
   assert (S : forall i, get_sock c' i = get_sock c i) by (intro; unfold get_sock; rewrite E3; reflexivity).
   assert (F : forall a, is_free c' a = is_free c a) by (intro; unfold is_free; rewrite G; reflexivity).
